@@ -40,6 +40,13 @@ type Case struct {
 	TZMin   int  // offset of the process time zone from UTC in minutes
 	OpenSSL bool // also ask the openssl CLI
 	Slow    bool // the signer answers only after the wall clock has moved on to the next second (HSM / smartcard)
+	Failed  bool // an update whose signer fails is attempted first (unplugged token), then the real one
+}
+
+type brokenSigner struct{ crypto.Signer }
+
+func (brokenSigner) Sign(io.Reader, []byte, crypto.SignerOpts) ([]byte, error) {
+	return nil, fmt.Errorf("c06: token unplugged")
 }
 
 // slowSigner delays its answer past the next second boundary.
@@ -97,6 +104,7 @@ func genCase(t *rapid.T) Case {
 		c.TZMin = 15 * rapid.IntRange(-48, 56).Draw(t, "tzquarters")
 	}
 	c.Slow = gen.Chance(t, "slowsigner", 1, 60)
+	c.Failed = rapid.IntRange(0, 5).Draw(t, "failedfirst") == 0
 	c.OpenSSL = rapid.IntRange(0, 19).Draw(t, "openssl") == 0 || hx.Thorough() && rapid.IntRange(0, 4).Draw(t, "openssl2") == 0
 	return c
 }
@@ -166,6 +174,13 @@ func checkCase(c Case) error {
 		if db, err := signature.ReadSignatureDatabase(bytes.NewReader(payload)); err == nil && bytes.Equal(db.Bytes(), payload) {
 			m = &db
 		}
+	}
+	if c.Failed {
+		if _, _, err := signature.SignEFIVariable(v, raw(append([]byte("stale payload of a failed attempt "), payload...)), brokenSigner{id.Priv()}, id.Cert); err == nil {
+			time.Local = saved
+			return fmt.Errorf("SignEFIVariable reports success although the signer failed")
+		}
+		hx.Class("failed_attempt_before_the_update")
 	}
 	var signer crypto.Signer = id.Priv()
 	if c.Slow {
